@@ -267,7 +267,10 @@ def fault_case(draw):
         kinds = [draw(st.sampled_from(PERMANENT))]
     else:
         kinds = [draw(st.sampled_from(TRANSIENT)) for _ in range(draw(st.integers(6, 8)))]
-    return {"kind": "fault", "op": op, "plan": plan, "faults": kinds}
+    # position (request index within an attempt) at which each fault is injected: 0 = first request; listings have one request per page
+    # (only a listing is ONE retried unit made of several requests; the other calls retry each request on its own)
+    pos = [draw(st.integers(0, 3)) if op == "list_files" else 0 for _ in kinds]
+    return {"kind": "fault", "op": op, "plan": plan, "faults": kinds, "pos": pos}
 
 
 def _mk_exc(kind):
@@ -325,6 +328,8 @@ def _fresh(fake):
     fake.raw_put("p/data/a", b"hello")
     fake.raw_put("p/data/b", b"x")
     fake.raw_put("p/data/c", b"y")
+    for i in range(4):
+        fake.raw_put(f"p/data/part-{i}", b"z")
     fake.log.clear()
 
 
@@ -343,14 +348,18 @@ def check_fault(case):
         raised_objs = []
         state = {"in_attempt": 0, "reqs": 0}
 
+        positions = list(case.get("pos") or [0] * len(pending))
+
         def hook(phase, op, key, req):
             if phase != "before":
                 return
             state["reqs"] += 1
-            # inject at the first request of an attempt
-            if pending and state["in_attempt"] == 0:
+            # inject at the chosen request of an attempt (clamped to the attempt's length); a failed attempt restarts from request 0
+            if pending and state["in_attempt"] == min(positions[0], clean_reqs_per_attempt - 1):
                 e = _mk_exc(pending.pop(0))
+                positions.pop(0)
                 raised_objs.append(e)
+                state["in_attempt"] = 0
                 raise e
             state["in_attempt"] += 1
             if state["in_attempt"] >= clean_reqs_per_attempt:
@@ -383,7 +392,7 @@ def check_fault(case):
         elif plan == "permanent":
             if got[0] != "err":
                 out["violations"].append((f"retry/permanent-swallowed/{op}", f"{op} returned {got[1]!r} although the request failed with {case['faults'][0]}"))
-            elif got[1] is not raised_objs[0] or injected != 1 or state["reqs"] != 1:
+            elif got[1] is not raised_objs[0] or injected != 1 or state["reqs"] != min(case.get("pos", [0])[0], clean_reqs_per_attempt - 1) + 1:
                 out["violations"].append((f"retry/permanent-retried/{op}", f"{op}: permanent error {case['faults'][0]} -> raised {type(got[1]).__name__}, requests issued {state['reqs']} (expected 1)"))
         else:
             if got[0] != "err":
